@@ -42,8 +42,10 @@ TABLE = {
             "The trait solver is modelled as the conjunction of the written bounds.",
             "Lean 4 theorem on the impl header + differential correspondence", "5/C04"),
     "C05": ("Lean theorem T_C05: for a concrete dependency the trait carries exactly one nested `::entrait::entrait(unimock = false, "
-            "mockall = false)` attribute and the impl is for the concrete type itself; composed with the trait-mode theorems (C06, C10) "
-            "for the second-stage expansion, which the harness also runs on the real macro (nested cases).",
+            "mockall = false)` attribute and the impl is for the concrete type itself; T_C05_full: the leaf trait is final (its async methods "
+            "already have the future type and Send-ness C12 prescribes, since the nested invocation does not see `?Send`); T_C05_two_stage: the "
+            "generated trait fed back into the model is accepted under every variant, forwards Impl<T> to T: Trait (P_C06) and derives no mock; "
+            "the harness runs the same second stage on the real macro (nested cases).",
             "Second stage emulates the compiler's attribute expansion order (unimock derivation above, cfg_attr resolved).",
             "Lean 4 theorem + two-stage differential correspondence", "5/C05"),
     "C06": ("Lean theorem T_C06: for an entraited trait without delegation-target trait, the Impl<T> impl has the trait's generics, "
